@@ -72,6 +72,7 @@ public:
                 backoff.reset(); // we could be very close to complete op.
             } else if (!(s & WRITER_PENDING)) { // no pending writers
                 m_state |= WRITER_PENDING;
+                __TBB_VERIF_POINT(vp_srw_step, this, 2);
             }
         }
         call_itt_notify(acquired, this);
@@ -156,6 +157,7 @@ protected:
                 while ((m_state.load(std::memory_order_relaxed) & READERS) != ONE_READER) backoff.pause();
                 __TBB_ASSERT((m_state & (WRITER_PENDING|WRITER)) == (WRITER_PENDING | WRITER), "invalid state when upgrading to writer");
                 // Both new readers and writers are blocked at this time
+                __TBB_VERIF_POINT(vp_srw_step, this, 1);
                 m_state -= (ONE_READER + WRITER_PENDING);
                 return true; // successfully upgraded
             }
